@@ -300,3 +300,11 @@ CHECKS['C08']['text'] += (
     "the choice at that moment: serve_with_starts (release), change_shift_starts and slotted_service_starts (by induction over the free servers / the slot size: each start is the choice at the state the previous starts left, interrupted customers first), "
     "accept_tail_starts, preempt_starts; accept_enqueues / class_change_moves_to_tail / queue_order_is_order_of_joining (queue order within a class is the order of joining THAT queue); fifo_by_arrival_date_refuted is a closed witness of the open finding F-08a, "
     "preemptor_started_twice_refuted of F-11a.")
+CHECKS['C04']['text'] += (
+    " T2 on the STAGE-2 engine model (Inv/Servers2.v, 3 800 lines; Properties/C04_stage2.v): run_many_srv2 / SrvInv2_means - with servers coming and going (Schedules, overtime, retired servers), interrupted and pre-empted customers: distinct server ids, "
+    "busy iff holding a customer, server -> customer and customer -> server mutually inverse except for interrupted customers (who record a retired server and are on the interrupted list), nobody shares a server, at most |servers| in service - in the executable scope "
+    "srv_scope (no 'reroute' option; no priority pre-emption at a node with a non-pre-emptive Schedule; class change while waiting only without priority pre-emption; no pre-emptive capacitated slots), INCLUDING the regions of F-02a / F-02b; "
+    "link_refuted_F12d, link_refuted_F12a, link_refuted_reroute_preempt are closed witnesses outside it (the open findings F-12d, F-12a and the F-11a region).")
+CHECKS['C05']['text'] += (
+    " T2 on the STAGE-2 engine model (Inv/Servers2.v): run_many_nonidle2 / NonIdle2_means - at a finite non-slotted node, whenever a customer in the queues records no server every on-duty server is busy, over any number of events in the scope srv_scope "
+    "(with Schedules, overtime, interruptions and pre-emption).")
